@@ -28,6 +28,27 @@ def opSafe (p : Panel) (acts : List Act) : Bool :=
 def opConforms (p : Panel) (name : String) (acts : List Act) : Bool :=
   (Oracle.c18 p [name] (actsToEvs acts)).isEmpty
 
+/-- C08 (i): the last command block of `sleep` is the family's deep-sleep command -/
+def sleepEndsDeep (p : Panel) (acts : List Act) : Bool :=
+  match Oracle.lastBlock (actsToEvs acts) with
+  | some (c, ps) => Spec.deepSleepOk p.name p.family c ps
+  | none => false
+
+/-- C08 (iii): `wake_up` programs the same registers (LUT / image commands aside) as `new` does
+    for the same driver fields -/
+def wakeLikeNew (p : Panel) (wake new : List Act) : Bool :=
+  Oracle.regWrites p (actsToEvs wake) == Oracle.regWrites p (actsToEvs new)
+
+/-- C17: the waveform tables an operation uploads (last parameters per LUT command) -/
+def lutUploads (p : Panel) (acts : List Act) : List (UInt8 × Bytes) :=
+  (Spec.lutCmds p.family).filterMap fun c =>
+    ((blocksOf acts).reverse.findSome? fun b => match b with
+      | .c c' ps => if c' == c then some ps else none
+      | _ => none).map fun ps => (c, ps)
+
+def lutMatches (f : Feat) (p : Panel) (m : Refresh) (acts : List Act) : Bool :=
+  lutUploads p acts == (Spec.lutRef f p.name m).getD []
+
 /-- decide a closed-control-flow statement by kernel evaluation, after splitting the feature flags
     `f` and the control-relevant driver fields of `d` into cases -/
 macro "panel_decide " f:ident d:ident : tactic => `(tactic| first
